@@ -129,6 +129,14 @@ ExpansionsIncluded ==
     IN \A n \in 1..3 :
          Proj(Reach(Case(Objs, [paths |-> <<P(Rep(Elems[e1].e, n) \o rest)>>], Dev), 1)) \subseteq R
 
+\* T8  zero repetitions of a leading e*: the referencing object if e can start there, the model
+\*     root if e can start at the root -- both for a comma group that mixes the two kinds
+ZeroRepetition ==
+  ph = 1 /\ pre = 0 /\ e1 # 0 /\ e2 = 0 /\ Elems[e1].k = "star" =>
+    LET R == Proj(Reach(C, 1)) IN
+    /\ SL(Elems[e1].e) => <<s, 1>> \in R
+    /\ SR(Elems[e1].e) => <<1, 1>> \in R
+
 \* T6  the deviation clause StarMarksStart only removes configurations, and none unless a `*`
 \*     in first position can start at the root (this is what RrelOracle relies on)
 RECURSIVE RootStarFirst(_)
